@@ -118,7 +118,11 @@ Plain(h, l) == Push(h, 0, 0, l, -1)              \* New / With...: never given a
 -----------------------------------------------------------------------------
 (* Emission: the frame the library model reports for a record through l *)
 
-AttrH(h, l, f, d) == C!AttrD([fam |-> f, depth |-> d, via |-> "Set", skip |-> h.skip[l], other |-> h.skip[l]], {})
+(* (the history worker reaches the two front-end families through methods of the front end's own logger;
+   which one does not matter - Caller!RouteIndependent - so one stands for all) *)
+HistEP(f) == CASE f = "bridge" -> "stdlog.Print" [] f = "adapter" -> "logslog.Info" [] OTHER -> ""
+AttrH(h, l, f, d) == C!AttrD([fam |-> f, ep |-> HistEP(f), route |-> "direct", depth |-> d, via |-> "Set", skip |-> h.skip[l],
+                              other |-> h.skip[l]], {})
 
 EmitGuard(h, l, f, d) == /\ l \in Live(h) /\ f \in HFams
                          /\ f \in PkgFams => h.obj[l] = h.obj[h.def]     \* package-level functions: default logger
